@@ -151,7 +151,7 @@ def rules_planner_links(A: Analysis, rep, F: Optional[PlannerFacts] = None):
             arg = a.ast.value.args[0]
             if isinstance(arg, ast.Name):
                 vals = [d.value for d in A.defs(fi, arg.id) if isinstance(d, ast.Assign) and id(d) in in_body]
-                if not vals or not all(tvar in {x.id for x in ast.walk(v) if isinstance(x, ast.Name)} for v in vals):
+                if not vals or not all(tvar in {x.id for x in ast.walk(A.expand(v, fi, stop=[tvar, F.lt, w.stack])) if isinstance(x, ast.Name)} for v in vals):
                     arg_ok = False
             elif tvar not in {x.id for x in ast.walk(arg) if isinstance(x, ast.Name)}:
                 arg_ok = False
@@ -181,7 +181,7 @@ def rules_planner_links(A: Analysis, rep, F: Optional[PlannerFacts] = None):
                           "`%s` is marked only at the node's own first visit, so an entry found there has finished lowering (acyclic graph, LIFO)" % m,
                           "`%s` is marked at push time (line %s): a sibling listed earlier links to an entry that is still unprocessed on the stack, "
                           "its output_ops is empty and the dependency edge is silently lost" % (m, push_marks[0][0].lineno if push_marks else "?"))
-            elif isinstance(v, ast.Call) and A.res.is_call_to(v, "LoweringTask.initial"):
+            elif isinstance(v, ast.Call) and (A.res.is_call_to(v, "LoweringTask.initial") or norm(v.func) == "LoweringTask.initial"):
                 pushed = [p for (p, c) in w.pushes() if c.args and isinstance(arg, ast.Name) and norm(c.args[0]) == arg.id]
                 okp = bool(pushed) and bool(second_push) and all(g.all_paths_pass(w.pop_node(), p, second_push, skip_labels=skip) for p in pushed)
                 rep.check(okp, "PL10", "fresh dependency entries are pushed above the second-visit marker", a.ast,
